@@ -365,6 +365,105 @@ class ListIter(IterBase):
         return c
 
 
+class ScanIter(IterBase):
+    """Iterator::scan(init, f): f(&mut state, item) -> Option<B>; stops at the first None"""
+
+    def __init__(self, inner, state, closure):
+        self.inner = inner
+        self.state = state if isinstance(state, Cell) else Cell(state)
+        self.closure = closure if isinstance(closure, Cell) else Cell(closure)
+        self.done = False
+
+    def next(self, it):
+        if self.done:
+            return None
+        x = self.inner.next(it)
+        if x is None:
+            return None
+        r = it.call_closure(self.closure, [Ref(self.state), x])
+        if not isinstance(r, Opt):
+            raise Unsupported("scan closure returned %r" % (r,))
+        if not r.some:
+            self.done = True
+            return None
+        return r.fields[0]
+
+    def clone(self):
+        c = ScanIter(self.inner.clone(), Cell(clone_value(self.state.v)), Cell(clone_value(self.closure.v)))
+        c.done = self.done
+        return c
+
+
+class FilterIter(IterBase):
+    """filter / filter_map / take_while / skip_while / inspect / map_while, by mode"""
+
+    def __init__(self, inner, closure, mode):
+        self.inner, self.mode = inner, mode
+        self.closure = closure if isinstance(closure, Cell) else Cell(closure)
+        self.flag = False  # take_while: finished; skip_while: started
+
+    def next(self, it):
+        while True:
+            if self.mode in ("take_while", "map_while") and self.flag:
+                return None
+            x = self.inner.next(it)
+            if x is None:
+                return None
+            if self.mode == "inspect":
+                it.call_closure(self.closure, [Ref(Cell(x))])
+                return x
+            if self.mode in ("filter_map", "map_while"):
+                r = it.call_closure(self.closure, [x])
+                if not isinstance(r, Opt):
+                    raise Unsupported("%s closure returned %r" % (self.mode, r))
+                if r.some:
+                    return r.fields[0]
+                if self.mode == "map_while":
+                    self.flag = True
+                    return None
+                continue
+            keep = it.decide(it.call_closure(self.closure, [Ref(Cell(x))]))
+            if self.mode == "filter":
+                if keep:
+                    return x
+                continue
+            if self.mode == "take_while":
+                if keep:
+                    return x
+                self.flag = True
+                return None
+            if self.mode == "skip_while":
+                if self.flag or not keep:
+                    self.flag = True
+                    return x
+                continue
+            raise Unsupported("iterator mode " + self.mode)
+
+    def clone(self):
+        c = FilterIter(self.inner.clone(), Cell(clone_value(self.closure.v)), self.mode)
+        c.flag = self.flag
+        return c
+
+
+class StepByIter(IterBase):
+    def __init__(self, inner, step):
+        self.inner, self.step, self.first = inner, step, True
+
+    def next(self, it):
+        if self.first:
+            self.first = False
+            return self.inner.next(it)
+        for _ in range(self.step - 1):
+            if self.inner.next(it) is None:
+                return None
+        return self.inner.next(it)
+
+    def clone(self):
+        c = StepByIter(self.inner.clone(), self.step)
+        c.first = self.first
+        return c
+
+
 class TakeIter(IterBase):
     def __init__(self, inner, n):
         self.inner, self.n = inner, n
@@ -770,6 +869,24 @@ class Interp:
             frame[n] = Cell(a)
         if len(args) != len(f.params):
             raise Unsupported("arity mismatch calling %s" % f.name)
+        # const generics: `[T; N]` in a parameter type binds N to the length of the array actually passed
+        if not hasattr(self, "const_env"):
+            self.const_env = [{}]
+        cenv = dict(self.const_env[-1])  # closures of a const-generic function see its parameters
+        for (_, ty), a in zip(f.params, args):
+            for m in re.finditer(r"\[[^\[\];]+; ([A-Z][A-Z0-9_]*)\]", ty):
+                v = a
+                while isinstance(v, Ref):
+                    v = read_path(v.cell, v.path)
+                if isinstance(v, Array) and re.match(r"^&*(mut )?\[[^\[\];]+; [A-Z][A-Z0-9_]*\]$", ty.strip()):
+                    cenv[m.group(1)] = len(v.fields)
+        self.const_env.append(cenv)
+        try:
+            return self._run_body(f, frame)
+        finally:
+            self.const_env.pop()
+
+    def _run_body(self, f, frame):
         bb = 0
         while True:
             stmts, term = f.blocks[bb]
@@ -965,6 +1082,10 @@ class Interp:
             return EnumVal("Ordering", last, {"Less": -1, "Equal": 0, "Greater": 1}[last])
         if last in self.p.consts:
             return self.eval_const(self.p.consts[last])
+        # const generic parameter of the running function, bound from the array lengths of its arguments
+        env = getattr(self, "const_env", None)
+        if env and re.match(r"^[A-Z][A-Z0-9_]*$", t) and t in env[-1]:
+            return env[-1][t]
         raise Unsupported("constant %r" % t)
 
     def eval_rvalue(self, f, frame, rv):
@@ -1011,8 +1132,8 @@ class Interp:
                     base = strip_path(full)
                 if "Option" in full and full.rstrip().endswith("None"):
                     return Opt(None, False)
-                if "Result" in full and base in ("Ok", "Err") and len(ops) == 1:
-                    return ResV(base == "Ok", ops[0])
+                if "Result" in full and base in ("Ok", "Err") and len(ops) <= 1:
+                    return ResV(base == "Ok", ops[0] if ops else UNIT)
                 if base in ("Less", "Equal", "Greater") and not ops and ("Ordering" in full or "::" not in full.strip()):
                     return EnumVal("Ordering", base, {"Less": -1, "Equal": 0, "Greater": 1}[base])
                 if "Option" in full and base == "Some":
@@ -1037,6 +1158,10 @@ class Interp:
                 return v
             if rv.kind.startswith("IntToInt") and isinstance(v, int):
                 return v
+            if rv.kind.startswith("IntToFloat") and isinstance(v, int) and not isinstance(v, bool) and abs(v) <= 2 ** 53:
+                return self.dom.const(float(v))  # exact for |v| <= 2^53
+            if rv.kind.startswith("FloatToFloat") and "f64" in (rv.ty or ""):
+                return v
             raise Unsupported("cast %s" % rv.kind)
         if isinstance(rv, mp.Discriminant):
             v = self.read_place(f, frame, rv.place)
@@ -1051,10 +1176,15 @@ class Interp:
             raise Unsupported("discriminant of %r" % (v,))
         if isinstance(rv, mp.Repeat):
             v = self.eval_operand(f, frame, rv.op)
-            m = re.match(r"^(\d+)", rv.count.replace("const ", ""))
-            if not m:
-                raise Unsupported("repeat count")
-            return Array([clone_value(v) for _ in range(int(m.group(1)))])
+            cnt = rv.count.replace("const ", "").strip()
+            m = re.match(r"^(\d+)", cnt)
+            if m:
+                k = int(m.group(1))
+            elif getattr(self, "const_env", None) and cnt in self.const_env[-1]:
+                k = self.const_env[-1][cnt]
+            else:
+                raise Unsupported("repeat count " + cnt)
+            return Array([clone_value(v) for _ in range(k)])
         if isinstance(rv, mp.Unsupported):
             raise Unsupported("rvalue: " + rv.text[:120])
         raise Unsupported("rvalue %r" % (rv,))
